@@ -285,6 +285,8 @@ def render_fn(fn, recipe, log):
             raise ExtractError(f"drop pattern {pat!r} matched {len(mm)} times")
         log["dropped_text"].append(mm[0].group(0).strip())
         body = body[:mm[0].start()] + body[mm[0].end():]
+    if recipe.get("drop_macros"):
+        body = drop_macro_statements(body, recipe["drop_macros"], log)
     if recipe.get("erase_errors"):
         body = erase_error_values(body, recipe["erase_errors"], log)
     # generic desugarings (order matters: chains first, then patterns)
@@ -504,4 +506,40 @@ def erase_error_values(body, prefixes, log, replacement="VerifError {}"):
             count += 1
     if count:
         log["rewrites"].append(f"erase error values: {count} expression(s) `{'|'.join(prefixes)}Variant(..)` -> `{replacement}` (error payload / message text dropped)")
+    return body
+
+
+def drop_macro_statements(body, names, log):
+    """Remove logging statements `name!( <balanced> );` (tracing/log macros have no effect on the
+    values a contract mentions). Each dropped statement is counted; the first line of each is
+    echoed in the evidence."""
+    count = 0
+    for name in sorted(names, key=len, reverse=True):
+        while True:
+            sset = set(p for p, _ in _scan_tokens(body, 0))
+            hit = None
+            for m in re.finditer(r"(?<![\w:])" + re.escape(name) + r"\s*\(", body):
+                if m.start() in sset:
+                    hit = m
+                    break
+            if not hit:
+                break
+            o = hit.end() - 1
+            depth, close = 0, None
+            for pos, ch in _scan_tokens(body, o):
+                if ch in "([{":
+                    depth += 1
+                elif ch in ")]}":
+                    depth -= 1
+                    if depth == 0:
+                        close = pos
+                        break
+            if close is None:
+                raise ExtractError("drop_macro_statements: unbalanced")
+            end = _skip_ws_comments(body, close + 1)
+            if not body.startswith(";", end):
+                raise ExtractError(f"{name} used as an expression, not a statement")
+            log["dropped_text"].append(body[hit.start():close + 1].split("\n")[0].strip() + " ...)")
+            body = body[:hit.start()] + body[end + 1:]
+            count += 1
     return body
